@@ -2662,26 +2662,40 @@ impl Compiler {
     ) -> Result<(), JsError> {
         self.builder.set_span(decl.span);
 
-        // Create the enum object
+        // The enum object: a repeated declaration of the same enum extends the existing
+        // object (`var E; (function (E) {...})(E || (E = {}))`), otherwise create it.
+        // The variable is bound before the members so that initializers can reference
+        // prior members via EnumName.MemberName or just MemberName.
         let enum_obj = self.builder.alloc_register()?;
-        self.builder.emit(Op::CreateObject { dst: enum_obj });
-
-        // Declare the enum variable FIRST so member initializers can reference prior members
-        // via EnumName.MemberName or just MemberName (for const enums)
         let enum_name_idx = self.builder.add_string(decl.id.name.cheap_clone())?;
-        self.builder.emit(Op::DeclareVar {
-            name: enum_name_idx,
-            init: enum_obj,
-            mutable: true, // Enums are mutable like objects
-        });
+        let earlier_members = self
+            .enum_scopes
+            .last()
+            .and_then(|scope| scope.get(&decl.id.name))
+            .cloned();
+        if earlier_members.is_some() {
+            self.builder.emit(Op::GetVar {
+                dst: enum_obj,
+                name: enum_name_idx,
+            });
+        } else {
+            self.builder.emit(Op::CreateObject { dst: enum_obj });
+            self.builder.emit(Op::DeclareVar {
+                name: enum_name_idx,
+                init: enum_obj,
+                mutable: true, // Enums are mutable like objects
+            });
+        }
 
-        // Track the current numeric value for auto-increment
-        let mut current_value: i64 = 0;
+        // value_reg holds the value of the previous member: an uninitialized member is
+        // that value plus one (zero for the first member of a declaration)
         let value_reg = self.builder.alloc_register()?;
         let key_reg = self.builder.alloc_register()?;
+        let mut first = true;
 
-        // Track prior member names for rewriting identifier references
-        let mut prior_members: Vec<JsString> = Vec::new();
+        // Track prior member names (of this and of earlier declarations of the enum)
+        // for rewriting identifier references
+        let mut prior_members: Vec<JsString> = earlier_members.unwrap_or_default();
 
         for member in &decl.members {
             let member_name = member.id.name.cheap_clone();
@@ -2690,22 +2704,23 @@ impl Compiler {
             if let Some(ref init) = member.initializer {
                 // Compile the initializer expression, rewriting references to prior enum members
                 self.compile_enum_init_expression(init, value_reg, enum_obj, &prior_members)?;
-
-                // Try to compute the numeric value for auto-increment
-                // This is a simplified version - in reality, we'd need const evaluation
-                if let crate::ast::Expression::Literal(lit) = init
-                    && let crate::ast::LiteralValue::Number(n) = &lit.value
-                {
-                    current_value = *n as i64 + 1;
-                }
-            } else {
-                // Use auto-increment value
+            } else if first {
                 self.builder.emit(Op::LoadInt {
                     dst: value_reg,
-                    value: current_value as i32,
+                    value: 0,
                 });
-                current_value += 1;
+            } else {
+                self.builder.emit(Op::LoadInt {
+                    dst: key_reg,
+                    value: 1,
+                });
+                self.builder.emit(Op::Add {
+                    dst: value_reg,
+                    left: value_reg,
+                    right: key_reg,
+                });
             }
+            first = false;
 
             // Add this member to prior members for subsequent initializers
             prior_members.push(member_name.cheap_clone());
@@ -2717,30 +2732,31 @@ impl Compiler {
                 value: value_reg,
             });
 
-            // Set reverse mapping for numeric values: EnumName[value] = MemberName
-            // Only for numeric values (not string enums)
-            // We need to check if value is numeric at runtime for mixed enums
-            let is_numeric = match &member.initializer {
-                None => true,
-                Some(init) => {
-                    // Check for numeric literal
-                    matches!(
-                        init,
-                        crate::ast::Expression::Literal(lit) if matches!(lit.as_ref(), crate::ast::Literal { value: crate::ast::LiteralValue::Number(_), .. })
-                    ) ||
-                    // Check for unary minus of numeric literal (e.g., -10)
-                    matches!(
-                        init,
-                        crate::ast::Expression::Unary(unary)
-                            if unary.operator == crate::ast::UnaryOp::Minus
-                            && matches!(
-                                unary.argument.as_ref(),
-                                crate::ast::Expression::Literal(lit) if matches!(lit.as_ref(), crate::ast::Literal { value: crate::ast::LiteralValue::Number(_), .. })
-                            )
-                    )
-                }
-            };
-            if is_numeric {
+            // Set reverse mapping EnumName[value] = "MemberName" for every member that is
+            // not initialized with a string literal; like the emit of tsc, a computed
+            // member gets one too (a computed value is a number in a valid enum)
+            let is_string_literal = matches!(
+                &member.initializer,
+                Some(crate::ast::Expression::Literal(lit))
+                    if matches!(lit.as_ref(), crate::ast::Literal { value: crate::ast::LiteralValue::String(_), .. })
+            ) || matches!(&member.initializer, Some(crate::ast::Expression::Template(_)));
+            if !is_string_literal {
+                // A reference to a string member evaluates to a string: no reverse entry then
+                self.builder.emit(Op::Typeof {
+                    dst: key_reg,
+                    src: value_reg,
+                });
+                let number_str = self.builder.alloc_register()?;
+                self.builder
+                    .emit_load_string(number_str, JsString::from("number"))?;
+                self.builder.emit(Op::StrictEq {
+                    dst: key_reg,
+                    left: key_reg,
+                    right: number_str,
+                });
+                self.builder.free_register(number_str);
+                let skip_reverse = self.builder.emit_jump_if_false(key_reg);
+
                 // Load the member name as a string value
                 self.builder.emit_load_string(key_reg, member_name)?;
 
@@ -2750,7 +2766,12 @@ impl Compiler {
                     key: value_reg,
                     value: key_reg,
                 });
+                self.builder.patch_jump(skip_reverse);
             }
+        }
+
+        if let Some(scope) = self.enum_scopes.last_mut() {
+            scope.insert(decl.id.name.cheap_clone(), prior_members);
         }
 
         self.builder.free_register(key_reg);
